@@ -236,11 +236,6 @@ func (s *SpokFile) run(stream iostream.IOStream, runner shell.Runner, force bool
 		return nil, fmt.Errorf("Could not load spok cache file at %q: %s", cachePath, err)
 	}
 
-	// Whether or not we want to update the cache after running e.g.
-	// if there were no file dependencies to update or if the task
-	// did not succeed
-	updateCache := true
-
 	for _, taskToRun := range runOrder {
 		// Gather up all the files to be hashed into a single slice
 		var toHash []string
@@ -257,12 +252,6 @@ func (s *SpokFile) run(stream iostream.IOStream, runner shell.Runner, force bool
 		toHash = append(toHash, taskToRun.FileDependencies...)
 
 		s.logger.Debug("Task %s depends on %d files", taskToRun.Name, len(toHash))
-
-		// If the task did not declare any file dependencies, let's not
-		// update the cache, this way it will always run
-		if len(toHash) == 0 {
-			updateCache = false
-		}
 
 		var hasher hash.Hasher
 		if force {
@@ -294,33 +283,45 @@ func (s *SpokFile) run(stream iostream.IOStream, runner shell.Runner, force bool
 		switch {
 		case cachedDigest == "" || currentDigest != cachedDigest:
 			// The digest is either empty or out of date, in which case the action to be taken is the same
-			// update the cache digest and run the task
-			if updateCache {
-				cachedState.Set(taskToRun.Name, currentDigest)
-			}
+			// run the task and update the cache digest
 			result, err = taskToRun.Run(runner, stream, s.Env())
 			if err != nil {
 				return nil, fmt.Errorf("Task %q encountered an error: %w", taskToRun.Name, err)
+			}
+
+			// Only record the digest once this task has succeeded, and only for this task. The cache is
+			// saved straight away so what has completed is remembered whatever happens to the rest of the run
+			if result.Ok() {
+				switch {
+				case len(toHash) == 0:
+					// No file dependencies (or globs that match nothing at the moment) so there is
+					// nothing to compare against next time, this way it will always run
+					currentDigest = ""
+				case force:
+					// The digest used to force the run never matches anything, record the actual one
+					// so the cache describes what this task last ran against
+					currentDigest, err = hash.New().Hash(toHash)
+					if err != nil {
+						return nil, err
+					}
+				}
+				if currentDigest != cachedDigest {
+					s.logger.Debug("Updating cached state for task %s", taskToRun.Name)
+					cachedState.Set(taskToRun.Name, currentDigest)
+					if err := cachedState.Dump(cachePath); err != nil {
+						return nil, err
+					}
+				}
 			}
 
 		case currentDigest == cachedDigest:
 			// This task has been run before and its digest has not changed, therefore
 			// we don't need to run it again
 			skipped = true
-			updateCache = false
 		}
 
 		// Gather up all the task results
 		results = append(results, task.Result{CommandResults: result, Task: taskToRun.Name, Skipped: skipped})
-	}
-
-	// Only update the cache if force was not set, the task declares file dependencies
-	// and the task run was successful
-	if !force && updateCache && results.Ok() {
-		s.logger.Debug("Updating cached state")
-		if err := cachedState.Dump(cachePath); err != nil {
-			return nil, err
-		}
 	}
 
 	return results, nil
